@@ -205,7 +205,7 @@ def _static_one(m):
     for pid in PROPS:
         try:
             ctx = report.Context(pid, repo, "quick")
-            importlib.import_module(f"sa.props.{pid}").check(ctx)
+            report.run_check(importlib.import_module(f"sa.props.{pid}"), ctx)
             bad = [o for o in ctx.obligations if o.verdict == report.VIOLATED and not report.match_known(o, known)]
             if bad:
                 res["caught"].append([pid, bad[0].rule, bad[0].function, bad[0].construct[:80]])
